@@ -307,11 +307,38 @@ def gen_tables(repo, out):
     return {"tables_changed": old != text}
 
 
+def gen_determinism(repo, out):
+    """Gen/Determinism.lean: the inventory of order-, identity- and process-state-sensitive constructs (tools/detscan.py)"""
+    sys.path.insert(0, os.path.dirname(os.path.abspath(__file__)))
+    import detscan
+    inv = detscan.scan(repo)
+    L = ["/- GENERATED by tools/translate.py (tools/detscan.py) from /repo/src/picosvg — DO NOT EDIT. -/",
+         "namespace PicoSVG.Gen.Det", ""]
+    L.append("/-- places where the iteration order of a set-like value can be observed: module:function|consumer|expression -/")
+    L.append("def setSites : List String := " + lean_list(lean_str(x) for x in inv["set_sites"]))
+    L.append("/-- id()/hash() calls, environment reads and imports of modules with ambient state -/")
+    L.append("def identitySites : List String := " + lean_list(lean_str(x) for x in inv["identity"]))
+    L.append("/-- functools caches (decorator, clear sites, call sites) and module/class-level containers mutated from functions -/")
+    L.append("def processState : List String := " + lean_list(lean_str(x) for x in inv["process_state"]))
+    seq = Src(repo, "svg").call_sequence("SVG._update_etree") or ["<missing>"]
+    L.append("/-- ordered calls inside SVG._update_etree (the clear must precede the memoised lookups) -/")
+    L.append("def flushCallSeq : List String := " + lean_list(lean_str(x) for x in seq))
+    L += ["", "end PicoSVG.Gen.Det"]
+    text = "\n".join(L) + "\n"
+    path = os.path.join(out, "Determinism.lean")
+    old = open(path).read() if os.path.exists(path) else None
+    if old != text:
+        with open(path, "w") as f:
+            f.write(text)
+    return {"determinism_changed": old != text}
+
+
 def main():
     repo, out = sys.argv[1], sys.argv[2]
     os.makedirs(out, exist_ok=True)
     try:
         summary = gen_tables(repo, out)
+        summary.update(gen_determinism(repo, out))
     except Exception as e:
         import traceback
         print(json.dumps({"error": "%s: %s" % (type(e).__name__, e), "trace": traceback.format_exc()}))
